@@ -110,7 +110,7 @@ class Env:
 
     def __init__(self, tape, *, faults=None, with_kernel=False, possible_cpus=4,
                  online_cpus=None, keep_events=0, ifname="sim0", stall_limit=6000,
-                 collide=None, monitor=None):
+                 collide=None, monitor=None, with_fs=False):
         self.tape = tape
         self.world = World(tape, keep_events)
         self.patches = Patches()
@@ -130,6 +130,14 @@ class Env:
         self.stall_limit = stall_limit
         self.collide = collide or {}     # label -> callable(lo, hi) or None
         self.loops = []
+        self.fs = None
+        self.sched = None
+        if with_fs:
+            from .fs import SimFS
+            self.fs = SimFS(self.world)
+            self.fs.kernel = self.kernel
+            if self.kernel is not None:
+                self.kernel.fs = self.fs
 
     # -- tape-backed replacements for random ---------------------------------------
     def _randint(self, label):
@@ -172,7 +180,14 @@ class Env:
         p.set(xdp, "if_nametoindex", self._if_nametoindex)
         # process-global counter: every simulated run starts like a fresh process
         p.set(ebpfcat_mod.SyncGroup, "packet_index", 1000)
-        if self.kernel is not None:
+        if self.sched is not None:
+            self.sched.track_global(ebpfcat_mod.SyncGroup, "packet_index")
+        if self.kernel is not None and self.sched is not None:
+            def bpf_with_preemption(cmd, fmt, *args):
+                self.sched.yield_point(f"bpf/{cmd}")
+                return self.kernel.bpf(cmd, fmt, *args)
+            p.set(bpf, "bpf", bpf_with_preemption)
+        elif self.kernel is not None:
             p.set(bpf, "bpf", self.kernel.bpf)
             p.set(arraymap, "mmap", self.kernel.mmap)
             p.set(arraymap, "cpu_count", lambda: self.online_cpus)
@@ -181,6 +196,15 @@ class Env:
                 p.set(arraymap, "possible_cpus", lambda: self.kernel.possible_cpus)
             if self.monitor is not None:
                 self.monitor.install(p, bpf)
+        if self.fs is not None:
+            from .fs import FcntlProxy, OsProxy, ShutilProxy, TempfileProxy, make_open
+            osp = OsProxy(self.fs, self.sched)
+            p.set(lock, "os", osp)
+            p.set(lock, "fcntl", FcntlProxy(self.fs))
+            p.set(ebpfcat_mod, "os", osp)
+            p.set(ebpfcat_mod, "tempfile", TempfileProxy(self.fs))
+            p.set(ebpfcat_mod, "shutil", ShutilProxy(self.fs))
+            p.set(ebpfcat_mod, "open", make_open(self.fs))
         root = logging.getLogger()
         self._old_level = root.level
         self._old_handlers = root.handlers[:]
@@ -213,6 +237,17 @@ class Env:
         if self.kernel is not None:
             self.kernel.shutdown()
         return False
+
+    def use_scheduler(self, **kw):
+        """several simulated processes (baton-passing threads); call before `with`"""
+        from .procs import Scheduler
+        import ebpfcat.ebpfcat as ebpfcat_mod
+        self.sched = Scheduler(self, **kw)
+        if self.fs is not None:
+            self.fs.yield_point = self.sched.yield_point
+            self.fs.current_pid = self.sched.current_pid
+            self.fs.block = self.sched.block_until
+        return self.sched
 
     def _if_nametoindex(self, name):
         bus = self.buses.get(name)
